@@ -992,6 +992,9 @@ class Evaluator:
                         scope.env[other] = self.class_attr(owner, other, ctx)
                     except Undecided:
                         pass
+            for other in used:
+                if other not in scope.env and other in owner.methods:
+                    scope.env[other] = FuncRef(owner.methods[other])          # a table of the class's own functions
             v_ = self.eval(val, scope, Ctx(owner.module, None, None, ctx.depth + 1))
             self.__dict__.setdefault('const_heap', {}).update(scope.heap)
             return v_
